@@ -89,7 +89,8 @@ TWO_PI = 2 * math.pi
 BAND_HI = 2e-6          # upper edge of the house NearZero band (the library's cut-off is 1e-6)
 COH_TOL = 1e-7
 LOG_RES = 2e-7
-NEAR_PI = 1e-3
+NEAR_PI = 1e-3         # absolute goal rotation, IKFree (axis-angle round trip at this property's tolerances; as C05)
+NEAR_PI_REL = 2e-5     # relative rotation FK(theta) -> goal at a claimed success (the C01 finding's own width)
 REL = 1e-6
 
 _lib = {}
@@ -237,6 +238,13 @@ def envelope(su, th, Gm, what):
         raise Violation("%s: success reported with a non-finite joint vector %r" % (what, th))
     T = su.fk(th)
     alpha, dp = O.pose_err(T, Gm)
+    if PI - alpha < NEAR_PI_REL:
+        # Open finding C01-near-pi-log (DESIGN 1.3: excluded and counted by every other property).  The solvers measure
+        # the error with MatrixLog6(FK^-1 goal); when that relative rotation is a half turn to ~1e-8 the logarithm's
+        # generic branch returns a vector of length ~pi*delta/1.5e-8 (2.8e-8 rad for an exact half turn on a 1-joint
+        # arm clamped to -pi with the goal at 0), so the kernel sees "no error".  Witness: replays/C07/known/.
+        ctx.skip("success claimed with FK(theta) within 2e-5 of a half turn from the goal: the library's matrix "
+                 "logarithm there is the open finding C01-near-pi-log")
     slack = su.band_slack(th)
     if dropped(th):
         ctx.label("solution has a joint value below the NearZero cut-off (loosened by it)")
@@ -509,6 +517,16 @@ def c_local(case, ctx):
     if smin < 0.05:
         ctx.skip("smallest Jacobian singular value < 0.05")
     ctx.note("sigma_min", smin)
+    n0 = int(np.count_nonzero(ths == 0.0))
+    if n0:
+        # Near such a solution the iterates of joint i are tiny, and the library's FK ignores joint values below 1e-6
+        # (NearZero): the solver cannot resolve the pose better than n0*1e-6*(1, lever).  Measured: IRB2400 with two
+        # joints at 0 stalls at |v| ~ 2e-8 for pos_tolerance 1e-9.  DESIGN 1.3: not demanded below that resolution.
+        need = n0 * BAND_HI
+        lever = float(np.linalg.norm(su.fk(ths)[:3, 3])) + su.scale
+        if su.rt < need or su.pt < need * lever:
+            ctx.skip("solution has a joint at exactly 0 and a tolerance below the NearZero resolution of the library's FK")
+        ctx.label("solution has a joint at 0 (tolerances above the NearZero resolution)")
     delta = delta_vec(m.n, case["delta"], case["mag"])
     th0 = ths + delta
     Gm = su.fk(ths)
@@ -673,10 +691,10 @@ S_IKFREE = st.fixed_dictionaries({
     "delta": DELTA, "pre_fk": st.booleans(), "seed": SEED})
 
 CLAUSES = [
-    Clause("between_tolerances_goal", c_between, S_BETWEEN, 400, 32000),
-    Clause("reachable_goal_any_start", c_single, S_REACH, 400, 32000),
-    Clause("unreachable_goal_is_failure", c_single, S_BEYOND, 250, 16000),
-    Clause("solve_history_coherent", c_history, S_HISTORY, 250, 16000),
-    Clause("local_convergence", c_local, S_LOCAL, 400, 32000),
-    Clause("ikfree_success_meets_tol", c_ikfree, S_IKFREE, 300, 16000),
+    Clause("between_tolerances_goal", c_between, S_BETWEEN, 400, 24000),
+    Clause("reachable_goal_any_start", c_single, S_REACH, 400, 24000),
+    Clause("unreachable_goal_is_failure", c_single, S_BEYOND, 250, 12000),
+    Clause("solve_history_coherent", c_history, S_HISTORY, 250, 12000),
+    Clause("local_convergence", c_local, S_LOCAL, 400, 24000),
+    Clause("ikfree_success_meets_tol", c_ikfree, S_IKFREE, 300, 12000),
 ]
